@@ -23,6 +23,7 @@ class PDict:
         self.value_ty = value_ty
         self.present = {k: False for k in self.universe}
         self.values = {k: None for k in self.universe}
+        interp.note_new_object(self)
 
     # ---- keys
     def resolve_key(self, interp, k):
@@ -56,7 +57,7 @@ class PDict:
         key = self.resolve_key(interp, k)
         if key is None:
             raise Unsupported('store of a key outside the universe of the dictionary')
-        interp.note_heap_write(self, None)
+        interp.note_container_write(self)
         if isinstance(v, list) and not v and self.value_ty is not None:
             # a new empty list: becomes a symbolic mutable list right away, so that it can be havocked in place
             # later (sound if the dictionary holds the only reference to the new list, as in `d[k] = []`)
